@@ -131,6 +131,12 @@ func (vc *VC) call(fr *Frame, st *State, ins ssa.Instruction, cc *ssa.CallCommon
 	} else {
 		full = "dynamic:" + cc.Value.Name()
 	}
+	// 0. fork flags: common.IsProposalNNN() reads chain configuration and the current block height, which
+	// are constant while one transaction executes: modelled as an uninterpreted boolean constant
+	if callee != nil && strings.HasPrefix(full, modulePath+"/src/common.IsProposal") && len(cc.Args) == 0 {
+		setRes(Val{T: vc.flagConst(callee.Name())})
+		return
+	}
 	// 1. library model
 	if callee != nil {
 		if m := libModel(full); m != nil {
@@ -159,12 +165,7 @@ func (vc *VC) call(fr *Frame, st *State, ins ssa.Instruction, cc *ssa.CallCommon
 		setRes(vc.applyContract(fr, st, con, callee, sig, cc, args, argTypes, resType, pos))
 		return
 	}
-	// 3. auto-inline small helpers of this module
-	if callee != nil && fr.depth < maxInlineDepth && vc.autoInline(callee) && !vc.onStack(fr, callee) {
-		setRes(vc.inlineCall(fr, st, callee, args, nil, pos))
-		return
-	}
-	// 4. effect-free allow-list
+	// 3. effect-free allow-list
 	if isEffectFree(full) {
 		vc.effectFree[full]++
 		v := vc.freshVal(st, "ef!"+shortName(full), resType)
@@ -172,6 +173,11 @@ func (vc *VC) call(fr *Frame, st *State, ins ssa.Instruction, cc *ssa.CallCommon
 			vc.assume(st, tNot(tEq(v.T, mk("(mk-iface 0 0)", sortIface))))
 		}
 		setRes(v)
+		return
+	}
+	// 4. auto-inline small helpers of this module
+	if callee != nil && fr.depth < maxInlineDepth && vc.autoInline(callee) && !vc.onStack(fr, callee) {
+		setRes(vc.inlineCall(fr, st, callee, args, nil, pos))
 		return
 	}
 	// 5. havoc
@@ -764,4 +770,14 @@ func (vc *VC) copyOp(fr *Frame, st *State, cc *ssa.CallCommon, args []Val, pos t
 	vc.assume(st, mk(q, sortBool))
 	vc.heapSet(st, comp, vc.define(comp, tStore(h, dRef, na)))
 	return Val{T: n}
+}
+
+func (vc *VC) flagConst(name string) Term {
+	n := smtIdent("flag!" + name)
+	if !vc.uf[n] {
+		vc.uf[n] = true
+		vc.constDecls = append(vc.constDecls, fmt.Sprintf("(declare-const %s Bool)", n))
+		vc.flagsUsed = append(vc.flagsUsed, name)
+	}
+	return mk(n, sortBool)
 }
